@@ -278,13 +278,20 @@ func buildC01(e *engine, p *rt.Package) {
 							}
 						}
 					}
+					if forced := e.cfg.Extra["force_path_value"]; forced != "" {
+						for _, fd := range info.PathFields {
+							if fd != nil && fd.Kind() == protoreflect.StringKind {
+								rm.Set(fd, protoreflect.ValueOfString(forced))
+							}
+						}
+					}
 					for _, fd := range info.PathFields {
 						if fd != nil && fd.Kind() == protoreflect.StringKind && (e.avoid("path_dot_segments") || e.avoid("path_value_single_slash")) {
 							if s := rm.Get(fd).String(); s == "/" && e.avoid("path_value_single_slash") {
 								res.excluded(e.cfg.Avoid["path_value_single_slash"] + ":path_value_single_slash")
 								rm.Set(fd, protoreflect.ValueOfString("/x"))
 							}
-							if s := rm.Get(fd).String(); s == "." || s == ".." {
+							if s := rm.Get(fd).String(); (s == "." || s == "..") && e.avoid("path_dot_segments") {
 								res.excluded(e.cfg.Avoid["path_dot_segments"] + ":path_dot_segments")
 								rm.Set(fd, protoreflect.ValueOfString(s+"x"))
 							}
